@@ -14,7 +14,8 @@ CLAIMED = {
     "C02": ("4 C02", "ast/CFG cache-invalidation analysis: key registry + computed getter dependency graph, "
             "must-pass-through of reset_contraction_indices after node removal, root-order writer guard, who-may-write, "
             "memo-key carrier analysis of the compiled-contractor cache, purity of inplace=False transformations "
-            "(writes and CFG-reachable stale reads of the original)"),
+            "(writes and CFG-reachable stale reads of the original)"
+            "; compiled-contractor invalidation after every hand-written change of order-sensitive recipes"),
     "C03": ("4 C03", "def-use provenance of flops/size getters, must-dependence of extensive totals on the slice multiplicity, "
             "executed-equals-reported clauses (contractor memo key, sliced-leaf invalidation)"
             "; symbolic evaluation (monomials in the index dimensions) of remove_ind's in-place deltas; integer-arithmetic discipline of stored figures"),
@@ -27,7 +28,8 @@ CLAIMED = {
             "tree builders on every path, guard of the one-community partition result"
             "; coverage of the leftover heap; dominance of every builder return by its completing loop"),
     "C06": ("4 C06", "write-discipline of the sliced-index table (sorted rebuild only, SliceInfo field order) and pairing "
-            "of sliced_inputs updates, chunk-key/slice-number agreement, exponent-aware combination sites"),
+            "of sliced_inputs updates, chunk-key/slice-number agreement, exponent-aware combination sites"
+            "; partial evaluation of every enumeration of slice numbers; recurrence of the strides and digit/remainder order of the mixed-radix decoding; storage ownership of yielded chunks"),
     "C07": ("4 C07", "CFG guard dominance of the forbidden-index test, structural form of the target filter, sibling "
             "agreement of the three target encodings"
             "; symbolic evaluation of the cost model's arithmetic (initial totals, per-index reductions, removal deltas, stored entry, figures) against the tree's definitions; copy completeness of the model; decision table of the allow_outer modes; flag/target agreement of every target test"),
@@ -70,10 +72,12 @@ CLAIMED = {
             "uncompensated index drop reachability"
             "; symbolic case analysis (index on left / right / both) of the annealing move evaluator against the survival rule"),
     "C19": ("4 C19", "every per-slice combination site uses the exponent-aware adder; normalise/accumulate pairing; "
-            "rescale-before-stack dominance and form; scale measure and zero sentinel; option reaches every expression branch"),
+            "rescale-before-stack dominance and form; scale measure and zero sentinel; option reaches every expression branch"
+            "; guard of the zero early-out; may-alias taint of in-place writes in the executor"),
     "C20": ("4 C20", "taint of the bond cap chi (reaches sizes only through min()/comparison); sibling cross-checks of "
             "compress vs its cost estimate, hypergraph vs tree survival rule, exact vs compressed size range; "
-            "ownership (freshness) of the simulator's size table; unary-step handling of path consumers"),
+            "ownership (freshness) of the simulator's size table; unary-step handling of path consumers"
+            "; symbolic evaluation of the compressed tracker's update methods (ledger of the simulated steps)"),
 }
 
 LEVEL_TEXT = {
